@@ -20,9 +20,34 @@ package main
 //@   ensures result0 == verif_uf_val[*vrf.VRF]("vrfOfNeighbor", bn)
 //@   modifies nothing
 
+//@ import "github.com/bio-routing/bio-rd/cmd/bio-rd/config"
+//@ import bgpserver "github.com/bio-routing/bio-rd/protocols/bgp/server"
+//@ spec
+//@ func spec_match(bn *config.BGPNeighbor, p bgpserver.PeerKey) bool {
+//@ 	return bn.PeerAddressIP == p.Addr() && p.VRF() == verif_uf_val[*vrf.VRF]("vrfOfNeighbor", bn)
+//@ }
+//@ func spec_noneIn(bg *config.BGPGroup, p bgpserver.PeerKey) bool {
+//@ 	return verif_forall(0, len(bg.Neighbors), func(n int) bool { return !spec_match(bg.Neighbors[n], p) })
+//@ }
+//@ end
+
 //@ contract (*bgpConfigurator).peerExistsInConfig
 //@   props C36
 //@   nosafety
 //@   requires c != nil && cfg != nil
-//@   ensures result ==> exists(g, 0, len(cfg.Groups), exists(n, 0, len(cfg.Groups[g].Neighbors), cfg.Groups[g].Neighbors[n].PeerAddressIP == p.Addr() && p.VRF() == verif_uf_val[*vrf.VRF]("vrfOfNeighbor", cfg.Groups[g].Neighbors[n])))
+//@   ensures result ==> exists(g, 0, len(cfg.Groups), exists(n, 0, len(cfg.Groups[g].Neighbors), spec_match(cfg.Groups[g].Neighbors[n], p)))
+//@   ensures !result ==> forall(g, 0, len(cfg.Groups), spec_noneIn(cfg.Groups[g], p))
 //@   modifies nothing
+//@   loop 0 vars rangeindex int
+//@   loop 0 invariant forall(g, 0, rangeindex+1, spec_noneIn(cfg.Groups[g], p))
+//@   loop 1 vars rangeindex int, bg *config.BGPGroup
+//@   loop 1 invariant forall(n, 0, rangeindex+1, !spec_match(bg.Neighbors[n], p))
+
+// Only sessions without a neighbor entry of their address and VRF are disposed,
+// and it is that session which is disposed.
+//@ import bnet "github.com/bio-routing/bio-rd/net"
+//@ contract (*bgpConfigurator).deconfigureRemovedSessions
+//@   props C36
+//@   nosafety
+//@   requires c != nil && cfg != nil
+//@   call DisposePeer args v *vrf.VRF, a *bnet.IP vars p bgpserver.PeerKey requires v == p.VRF() && a == p.Addr() && forall(g, 0, len(cfg.Groups), spec_noneIn(cfg.Groups[g], p))
